@@ -103,3 +103,65 @@ Example zones_all_kinds :
   /\ zone2 ex_oracle DTextOrInt (s2l "+7") = ZDontCare
   /\ zone2 ex_oracle (DFloat true) (s2l "1e3") = ZAccept (VFloat (s2l "1000.0")).
 Proof. vm_compute. repeat split; reflexivity. Qed.
+
+From MafVerif Require Import model.RecordOps model.ColRecord proofs.ParseFacts proofs.LineFacts.
+
+(* ACCEPT, whole lines: under every pinned documented layout, a line with the
+   layout's number of tab-separated fields each lying in the documented domain
+   of its column (and containing no CR/LF) is accepted in Strict mode without
+   any validation error; the record has one slot per column, field i is bound
+   to the layout's i-th column name, stores index i, and carries exactly the
+   value the text denotes.  For all lines; the 14 layouts are the bound. *)
+Theorem C01_line_in_domain_is_accepted :
+  forall (Or : oracles), oracle_clean Or ->
+  forall ver annot cols ln line,
+    In (ver, annot, cols) spec_layouts ->
+    let texts := split TAB (rstrip_crlf line) in
+    length texts = length cols ->
+    (forall i name d t, nth_error cols i = Some (name, d) -> nth_error texts i = Some t ->
+        contains_sep t = false /\ exists v, zone2 Or d t = ZAccept v) ->
+    exists l rec cs,
+      find_layout layouts_ok annot = Some l /\
+      from_line class_table Or Strict None (Some (l_cols l)) ln line = Ok (rec, []) /\
+      dense rec cs /\ length cs = length cols /\
+      forall i name d t, nth_error cols i = Some (name, d) -> nth_error texts i = Some t ->
+        exists c v, nth_error cs i = Some c /\ ckey c = s2l name /\ cidx c = Some (Z.of_nat i) /\
+                    zone2 Or d t = ZAccept v /\ v_val (cval c) = v.
+Proof. intros Or Hc. exact (line_accepted_as_documented Or Hc). Qed.
+Print Assumptions C01_line_in_domain_is_accepted.
+
+(* REJECT, whole lines, every validation mode: if some field lies outside the
+   documented domain of its column, the line is not returned in Strict mode;
+   in the other modes the column is not exposed (record.value(name) is None)
+   and, when the field count is right, an error is reported against that
+   column with the line number. *)
+Theorem C01_field_outside_domain_is_reported_and_hidden :
+  forall (Or : oracles), oracle_clean Or ->
+  forall ver annot cols m ln line i name d t l rec errs,
+    In (ver, annot, cols) spec_layouts -> find_layout layouts_ok annot = Some l ->
+    let texts := split TAB (rstrip_crlf line) in
+    nth_error cols i = Some (name, d) -> nth_error texts i = Some t ->
+    contains_sep t = false -> zone2 Or d t = ZReject ->
+    from_line class_table Or m None (Some (l_cols l)) ln line = Ok (rec, errs) ->
+    m <> Strict /\ rec_value rec (s2l name) = VNone /\
+    (length texts = length cols -> exists e, In e errs /\ ecol e = Some (s2l name) /\ eline e = ln).
+Proof. intros Or Hc. exact (field_rejected_as_documented Or Hc). Qed.
+Print Assumptions C01_field_outside_domain_is_reported_and_hidden.
+
+(* wrong field count: reported, nothing exposed *)
+Theorem C01_wrong_field_count :
+  forall (Or : oracles) m (s : scheme) ln line,
+    length (split TAB (rstrip_crlf line)) <> length s ->
+    match from_line class_table Or m None (Some s) ln line with
+    | Ok (rec, errs) => m <> Strict /\ rec = empty_rec /\
+                        exists e, In e errs /\ etpe e = "RECORD_MISMATCH_NUMBER_OF_COLUMNS" /\ eline e = ln
+    | Raise (MafFormat _ l) => m = Strict /\ l = ln
+    | Raise _ => False
+    end.
+Proof.
+  intros Or m s ln line Hne. unfold from_line. rewrite map_length.
+  destruct (Nat.eqb_spec (length s) (length (split TAB (rstrip_crlf line)))) as [E|E]; [congruence|].
+  cbn [negb]. unfold rec_validate, process_errors. simpl.
+  destruct m; simpl; auto; (split; [discriminate|split; [reflexivity|]]); eexists; (split; [left; reflexivity|]); auto.
+Qed.
+Print Assumptions C01_wrong_field_count.
